@@ -464,8 +464,9 @@ def cli_build():
     return time.time() - t0
 
 
-def run_cli(args, cwd=None, fsize_limit=None, timeout=60):
-    """run the tackler binary; stdout/stderr through pipes (not subject to RLIMIT_FSIZE)"""
+def run_cli(args, cwd=None, fsize_limit=None, timeout=60, stdout_path=None):
+    """run the tackler binary; stdout/stderr through pipes (not subject to RLIMIT_FSIZE),
+    or stdout into the file/device stdout_path (then subject to the limit)"""
     import resource, signal
 
     def pre():
@@ -474,6 +475,10 @@ def run_cli(args, cwd=None, fsize_limit=None, timeout=60):
             resource.setrlimit(resource.RLIMIT_FSIZE, (fsize_limit, fsize_limit))
         resource.setrlimit(resource.RLIMIT_AS, (8 << 30, 8 << 30))
     try:
+        if stdout_path is not None:
+            with open(stdout_path, "wb") as so:
+                p = subprocess.run([CLI_BIN] + args, cwd=cwd, stdout=so, stderr=subprocess.PIPE, timeout=timeout, preexec_fn=pre)
+            return p.returncode, "", p.stderr.decode("utf-8", "replace")
         p = subprocess.run([CLI_BIN] + args, cwd=cwd, capture_output=True, text=True, timeout=timeout, preexec_fn=pre)
         return p.returncode, p.stdout, p.stderr
     except subprocess.TimeoutExpired:
